@@ -77,44 +77,52 @@ func init() {
 			maxF := r.P.Field("workers/wmark", "Watermarker", "maxTimestamp")
 			lateF := r.P.Field("workers/wmark", "Watermarker", "allowedLateness")
 			r.Site(f.Decl.Pos(), "CurrentWatermark expression")
-			var ret *ast.ReturnStmt
+			var rets []*ast.ReturnStmt
 			ast.Inspect(f.Decl.Body, func(nd ast.Node) bool { // the function's own returns, not those of helpers it calls
 				if _, ok := nd.(*ast.FuncLit); ok {
 					return false
 				}
 				if rs, ok := nd.(*ast.ReturnStmt); ok {
-					ret = rs
+					rets = append(rets, rs)
 				}
 				return true
 			})
-			if ret == nil || len(ret.Results) != 1 {
+			if len(rets) == 0 {
 				r.Error("undecided: CurrentWatermark shape")
 				return
 			}
-			e := resolveLocal(info, f.Decl.Body, ret.Results[0])
-			call, ok := ast.Unparen(e).(*ast.CallExpr)
-			bad := func(msg string) {
-				r.Fail(f.Name()+":form", ret.Pos(), nil, "CurrentWatermark is not maxTimestamp - (allowedLateness + 1ns): %s", msg)
-			}
-			if !ok {
-				bad("not a call of Time.Add")
-				return
-			}
-			sel, ok := ast.Unparen(call.Fun).(*ast.SelectorExpr)
-			if !ok || sel.Sel.Name != "Add" || prog.SelField(info, sel.X) != maxF || len(call.Args) != 1 {
-				bad("the base is not maxTimestamp.Add(...)")
-				return
-			}
-			// normalise the offset: unary minus over a sum
-			lin, okLin := linearOfSigned(info, f.Decl.Body, call.Args[0])
-			if !okLin {
-				r.Error("undecided: the watermark offset is not a linear expression")
-				return
-			}
-			recv := f.Decl.Recv.List[0].Names[0].Name
-			want := map[string]int{recv + "." + lateF.Name(): -1, "": -1}
-			if !sameLinear(lin, want) {
-				bad("offset has the form " + renderLinear(lin) + ", want -allowedLateness - 1 (ns)")
+			// every return has the form: a special case (epoch before the first event, a clamp) makes
+			// the sequence of watermarks non-monotone or lets it reach a forwarded timestamp
+			for _, ret := range rets {
+				if len(ret.Results) != 1 {
+					r.Error("undecided: CurrentWatermark shape")
+					return
+				}
+				e := resolveLocal(info, f.Decl.Body, ret.Results[0])
+				call, ok := ast.Unparen(e).(*ast.CallExpr)
+				bad := func(msg string) {
+					r.Fail(f.Name()+":form", ret.Pos(), nil, "CurrentWatermark is not maxTimestamp - (allowedLateness + 1ns): %s", msg)
+				}
+				if !ok {
+					bad("not a call of Time.Add")
+					continue
+				}
+				sel, ok := ast.Unparen(call.Fun).(*ast.SelectorExpr)
+				if !ok || sel.Sel.Name != "Add" || prog.SelField(info, sel.X) != maxF || len(call.Args) != 1 {
+					bad("the base is not maxTimestamp.Add(...)")
+					continue
+				}
+				// normalise the offset: unary minus over a sum
+				lin, okLin := linearOfSigned(info, f.Decl.Body, call.Args[0])
+				if !okLin {
+					r.Error("undecided: the watermark offset is not a linear expression")
+					return
+				}
+				recv := f.Decl.Recv.List[0].Names[0].Name
+				want := map[string]int{recv + "." + lateF.Name(): -1, "": -1}
+				if !sameLinear(lin, want) {
+					bad("offset has the form " + renderLinear(lin) + ", want -allowedLateness - 1 (ns)")
+				}
 			}
 		}})
 
